@@ -232,15 +232,26 @@ def cases_for(prop, tier, rng):
 def explore_part(prop, ctx, res, tier=None):
     """run the resharing / index-gap cases of `prop`, report violations, return the coverage block"""
     tier = tier or ("thorough" if ctx["deep"] else ctx["tier"])
-    cases = []
+    corpus = []
     cdir = os.path.join(core.VERIF, "corpus", prop)
     if os.path.isdir(cdir):
         for f in sorted(os.listdir(cdir)):
             if f.startswith("net_") and f.endswith(".json"):
                 c = json.load(open(os.path.join(cdir, f)))
-                cases.append(dict(c["case"], ops=c["ops"]))
-    cases += cases_for(prop, tier, ctx["rng"])
-    results, flakes = run_cases(cases, tier, ctx["model_ok"])
+                corpus.append(dict(c["case"], ops=c["ops"]))
+    quick = corpus + cases_for(prop, "quick", ctx["rng"])
+    stages = [("quick", quick)]
+    if tier != "quick":
+        have = {(c["name"], c["scheme"], c["backend"]) for c in quick}
+        stages.append(("thorough", [c for c in cases_for(prop, "thorough", ctx["rng"]) if (c["name"], c["scheme"], c["backend"]) not in have]))
+    results, flakes = [], 0
+    for t, cases in stages:
+        r, f = run_cases(cases, t, ctx["model_ok"])
+        results += r
+        flakes += f
+        # a failing input that is not a known finding is in hand: the wide sweep adds nothing
+        if any((not x["ok"]) and any(not is_late_class(v[0]) for v in x["viol"]) for x in r):
+            break
     report(res, results)
     return coverage(results, flakes), results
 
